@@ -5,10 +5,15 @@
 #include <c15_mesh.hpp>
 #include <verif.hpp>
 
+#include <kernel/geometry/mesh_atlas.hpp>
+#include <kernel/geometry/mesh_file_reader.hpp>
+#include <kernel/geometry/mesh_node.hpp>
 #include <kernel/runtime.hpp>
 #include <kernel/trafo/inverse_mapping.hpp>
 #include <kernel/trafo/standard/mapping.hpp>
 
+#include <dirent.h>
+#include <fstream>
 #include <sstream>
 
 using namespace FEAT;
@@ -78,8 +83,27 @@ namespace
     verif::Ctx& c;
     const MeshData<Shape_>& md;
     std::string kp;
+    int inv_lattice = 5;
 
     TrafoChecker(verif::Ctx& c_, const MeshData<Shape_>& md_) : c(c_), md(md_) { kp = std::string("trafo/") + SI::name(); }
+
+    /// checks on an existing FEAT mesh (shipped mesh files): cell evaluator and inverse mapping
+    void run_on_mesh(MeshType& mesh)
+    {
+      TrafoType trafo(mesh);
+      std::vector<CellGeom<Shape_>> geoms;
+      const auto& vs = mesh.get_vertex_set();
+      const auto& vc = mesh.template get_index_set<D, 0>();
+      for(Index k = 0; k < mesh.get_num_entities(D); ++k)
+      {
+        std::array<std::array<LD, D>, SI::NV> x;
+        for(int i = 0; i < SI::NV; ++i) for(int j = 0; j < D; ++j) x[(size_t)i][(size_t)j] = LD(vs[vc(k, i)][j]);
+        geoms.emplace_back(x);
+      }
+      check_cells(trafo, geoms);
+      inv_lattice = 3;
+      check_inverse(trafo, geoms);
+    }
 
     void run()
     {
@@ -237,7 +261,7 @@ namespace
     void check_inverse(const TrafoType& trafo, const std::vector<CellGeom<Shape_>>& geoms)
     {
       Trafo::InverseMapping<TrafoType, double> inv(trafo);
-      const auto lattice = ref_lattice<Shape_>(5);
+      const auto lattice = ref_lattice<Shape_>(inv_lattice);
       for(Index k = 0; k < Index(geoms.size()); ++k)
       {
         for(int mode = 0; mode < 2; ++mode) // 0: lattice points of the cell; 1: points pushed outside the reference cell
@@ -260,6 +284,18 @@ namespace
             {
               std::array<LD, D> eta;
               std::array<LD, D> xr; for(int j = 0; j < D; ++j) xr[(size_t)j] = LD(xp[j]);
+              // cheap rejection: outside the (5% enlarged) bounding box of the vertices
+              {
+                bool out = false;
+                for(int j = 0; j < D && !out; ++j)
+                {
+                  LD lo = geoms[l].xv[0][(size_t)j], hi = lo;
+                  for(int v = 1; v < SI::NV; ++v) { lo = std::min(lo, geoms[l].xv[(size_t)v][(size_t)j]); hi = std::max(hi, geoms[l].xv[(size_t)v][(size_t)j]); }
+                  LD ex = LD(0.05) * (hi - lo);
+                  out = (xr[(size_t)j] < lo - ex) || (xr[(size_t)j] > hi + ex);
+                }
+                if(out) continue;
+              }
               if(!geoms[l].unmap(xr, eta)) continue;
               if(geoms[l].on_ref(eta, LD(1e-9))) { exp_cells.push_back(l); exp_pts.push_back(eta); }
               else if(geoms[l].on_ref(eta, LD(2e-4))) band = true;
@@ -340,6 +376,42 @@ namespace
   }
 }
 
+namespace
+{
+  std::vector<std::string> list_mesh_files(const std::string& dir)
+  {
+    std::vector<std::string> r;
+    DIR* d = opendir(dir.c_str());
+    if(!d) return r;
+    while(dirent* e = readdir(d))
+    {
+      std::string n = e->d_name;
+      if(n.size() > 4 && n.substr(n.size() - 4) == ".xml") r.push_back(n);
+    }
+    closedir(d);
+    std::sort(r.begin(), r.end());
+    return r;
+  }
+
+  template<typename Shape_>
+  void shipped_mesh_case(verif::Ctx& c, Geometry::MeshFileReader& reader, const std::string& name)
+  {
+    typedef Geometry::ConformalMesh<Shape_, Shape_::dimension, double> MeshType;
+    Geometry::MeshAtlas<MeshType> atlas;
+    auto node = reader.parse(atlas, nullptr);
+    MeshType* mesh = node->get_mesh();
+    if(mesh == nullptr) { c.count("shipped_without_root_mesh"); return; }
+    if(mesh->get_num_entities(Shape_::dimension) > 2000) { c.count("shipped_too_large_skipped"); return; }
+    MeshData<Shape_> dummy;
+    TrafoChecker<Shape_> chk(c, dummy);
+    chk.kp = "trafo/shipped:" + name;
+    chk.run_on_mesh(*mesh);
+    c.count("cases_shipped");
+    c.count("shipped_cells", mesh->get_num_entities(Shape_::dimension));
+    c.nontrivial(verif::Hash().str(name).get());
+  }
+}
+
 int main(int argc, char** argv)
 {
   Runtime::ScopeGuard guard(argc, argv);
@@ -357,11 +429,31 @@ int main(int argc, char** argv)
     "standard trafo = multilinear (hypercube) / affine (simplex) interpolation of the cell vertices in FEAT's reference numbering (definition)",
     "points whose harness pre-image lies in the band (1e-9, 2e-4) outside a reference cell are skipped: InverseMapping's domain tolerance 1e-4 makes the expected answer ambiguous there",
     "isoparametric trafo not covered"};
+  const char* vr = std::getenv("VERIF_REPO");
+  const std::string mesh_dir = std::string(vr ? vr : "/repo") + "/data/meshes";
+  const std::vector<std::string> mesh_files = list_mesh_files(mesh_dir);
   return verif::run(spec, argc, argv, [&](verif::Ctx& c) {
     enumerate_shape<Shape::Hypercube<1>>(c);
     enumerate_shape<Shape::Simplex<2>>(c);
     enumerate_shape<Shape::Hypercube<2>>(c);
     enumerate_shape<Shape::Simplex<3>>(c);
     enumerate_shape<Shape::Hypercube<3>>(c);
+    // every shipped mesh file with at most 2000 cells (standard trafo on the root mesh)
+    for(const std::string& name : mesh_files)
+    {
+      if(!c.want()) continue;
+      c.desc([&]{ return "shipped mesh " + name; });
+      std::ifstream ifs(mesh_dir + "/" + name);
+      if(!ifs.good()) { c.fail("trafo/shipped:" + name + " open", "cannot open mesh file (machinery)"); continue; }
+      Geometry::MeshFileReader reader(ifs);
+      reader.read_root_markup();
+      const std::string mt = reader.get_meshtype_string();
+      c.outcome("shipped " + mt);
+      if(mt == "conformal:hypercube:2:2") shipped_mesh_case<Shape::Hypercube<2>>(c, reader, name);
+      else if(mt == "conformal:hypercube:3:3") shipped_mesh_case<Shape::Hypercube<3>>(c, reader, name);
+      else if(mt == "conformal:simplex:2:2") shipped_mesh_case<Shape::Simplex<2>>(c, reader, name);
+      else if(mt == "conformal:simplex:3:3") shipped_mesh_case<Shape::Simplex<3>>(c, reader, name);
+      else c.count("shipped_other_type_skipped");
+    }
   });
 }
